@@ -278,6 +278,28 @@ def run(ctx):
         if any(a < b for a, b in zip(counts, counts[1:])):
             v(f"PELT(L2Cost) reports more changepoints for a larger penalty_scale: scales [0.2,1,3,9] -> counts {counts}",
               {"X": x.tolist(), "counts": counts}, {"what": "pelt-monotone", "real": True})
+    # ---- short series with min_segment_length 2..4 and a FINE grid of penalties (81 values): here the delayed pruning matters -- a start dropped one iteration early makes
+    # ---- PELT sub-optimal in a penalty-dependent way and the count non-monotone.  A corpus of three series on which that was observed (round 8) runs first.
+    def _mono_series(seed_):
+        r_ = np.random.default_rng(seed_)
+        n_ = int(r_.integers(12, 40))
+        ml_ = int(r_.integers(2, 5))
+        x_ = r_.normal(size=(n_, 1))
+        for c_ in r_.integers(1, n_, size=r_.integers(0, 4)):
+            x_[c_:] += r_.normal() * 2
+        return x_, ml_
+    grid81 = np.linspace(0.0, 8.0, 81)
+    for seed_ in [155, 166, 231] + [int(rng.randint(0, 10 ** 6)) for _ in range(ctx.n(12, 120))]:
+        x_, ml_ = _mono_series(seed_)
+        n_ = len(x_)
+        counts = [len(PELT(cost=L2Cost(), penalty_scale=float(pen_ / (2 * math.log(n_))), min_segment_length=ml_).fit(x_).predict(x_)) for pen_ in grid81]
+        ctx.case({"mono-fine": seed_}, nontrivial=counts[0] > 0)
+        ctx.count("pelt_monotone", "fine grid, short series")
+        if any(a < b for a, b in zip(counts, counts[1:])):
+            k_ = next(i_ for i_, (a, b) in enumerate(zip(counts, counts[1:])) if a < b)
+            v(f"PELT(L2Cost, min_segment_length={ml_}) on a series of {n_} samples reports {counts[k_]} changepoints for penalty {grid81[k_]:.2f} and {counts[k_ + 1]} for the larger "
+              f"penalty {grid81[k_ + 1]:.2f}", {"X": x_.tolist(), "min_segment_length": ml_, "penalties": [float(grid81[k_]), float(grid81[k_ + 1])], "counts": counts},
+              {"what": "pelt-monotone", "real": True, "fine": True})
     # ---- the same on INTEGER-typed data (small integers, many ties) with a fine grid of penalties, min_segment_length 1 ----
     for rep in range(ctx.n(10, 60)):
         n = rng.randint(15, 30)
